@@ -90,6 +90,11 @@ def menu(kind, ds=None):
         m[10] = ([("thr", 10.0)], 1, "all", None)
         m[11] = ([("thr", 5.0)], 1, "leadtime", 0)
         m[13] = ([("obs",), ("q", 0.9)], 1, "all", None)
+    if kind == "nccdf":
+        # consumers that turn the cached probabilities into event probabilities of other event types (and may clip, flip or
+        # sort them while doing so)
+        m += [("diagram", "igncontrib", "below", None), ("diagram", "roc", "below=", None), ("diagram", "marginal", "above", None),
+              ("diagram", "igncontrib", None, None), ("diagram", "economicvalue", "above=", None)]
     if kind == "pit":
         m[11] = (["pit"], 0, "all", None)
         m[12] = (["obs", "pit"], 1, "no", 0)
@@ -124,6 +129,11 @@ def make_ds(rng, kind):
             st = c02.shuffled_nc_style(rng, inp, identity=True)
             st["enc"] = ["customfill", "mvattr", "fill"]
             inp["style"] = st
+            # certain forecasts: probabilities of exactly 0 and 1 at every threshold of some cases
+            for c_ in inp["cells"].values():
+                if c_.get("p") is not None and rng.random() < 0.3:
+                    j = rng.randint(0, len(c_["p"]))
+                    c_["p"] = [0.0 if i_ < j else 1.0 for i_ in range(len(c_["p"]))]
         return ds
     ds = gen.make_dataset(rng, n_inputs=2, fmt="text", clim=(kind == "clim"), pit=(kind == "pit"), miss=0.2 if kind != "ens" else 0.05,
                           sparse=0.1, max_t=3, max_l=3, max_s=2, same_dims=False, ens=(kind == "ens"), members=3)
@@ -142,14 +152,16 @@ def request(data, req):
     import verif.axis
     fields, k, axis, idx = req
     if fields == "diagram":
-        # a consumer inside verif: a diagram drawn from this Data object (its numbers are not compared here - it must leave the
-        # dataset as it found it)
+        # a consumer inside verif: a diagram drawn from this Data object; it must leave the dataset as it found it, and what it
+        # draws is compared like any other answer
         import numpy as np
         import matplotlib.pyplot as mpl
         import verif.output
         pl = verif.output.get(k)
         pl.thresholds = np.array([5.0])
         pl.filename = None
+        if axis is not None:
+            pl.bin_type = axis          # (third slot of a diagram entry: the -b event type; default otherwise)
         try:
             pl.plot(data)
         except SystemExit:
